@@ -416,7 +416,8 @@ class ClientWebSocketResponse(Generic[_DecodeText]):
                     if self._close_wait:
                         set_result(self._close_wait, None)
             except (asyncio.CancelledError, asyncio.TimeoutError):
-                self._close_code = WSCloseCode.ABNORMAL_CLOSURE
+                # The session stays open: giving up on one read is not an
+                # end of the connection, so there is no close code yet.
                 raise
             except EofStream:
                 self._close_code = WSCloseCode.OK
